@@ -144,6 +144,43 @@ def late_registration(rng, ident):
     return scn.line("scn", ident, s, extra="nt=1 quiescent=1 family=late-registration latemethods=6c6174652e6d expectinv=%s" % ",".join(inv))
 
 
+def sibling_tags(rng, ident):
+    """several calls / notifications made from ONE context that already carries tags (a session), each adding its own tags
+    (or none): every frame must carry exactly the tags of its own context"""
+    def tm(pairs):
+        return ("m", [(("s", k), v) for k, v in pairs])
+    skeys = [b"session", b"req", b"trace"]
+    sess = [(b"session", ("s", b"s%d" % rng.below(9)))]
+    if rng.chance(1, 3):
+        sess.append((b"req", ("s", b"base")))
+    s = ["session/" + T(tm(sess))]
+    k = 2 + rng.below(3)
+    per = []
+    for i in range(1, k + 1):
+        own = []
+        if rng.chance(3, 4):
+            own.append((b"req", ("s", b"r%d" % i)))
+        if rng.chance(1, 3):
+            own.append((b"trace", rng.below(1000)))
+        per.append(own)
+    kinds = ["c"] * k          # notification frames are C19's (the trace abstraction identifies operations by call ids)
+    conc = rng.chance(1, 3)
+    for i in range(1, k + 1):
+        tg = T(tm(per[i - 1])) if per[i - 1] else "-"
+        if kinds[i - 1] == "c":
+            s.append(scn.call(i, tags=tg, nowait=conc))
+        else:
+            s.append(scn.notify(i, tags=tg, nowait=conc))
+    s.append("waitwrites/%d" % k)
+    exp = []
+    for i in range(1, k + 1):
+        if kinds[i - 1] == "c":
+            s += ["replyto/%d" % i, "await/c%d" % i]; exp.append("%d:ok" % i)
+    s.append("settle")
+    ct = "|".join("%d~%s" % (i, T(tm(per[i - 1])) if per[i - 1] else "-") for i in range(1, k + 1))
+    return scn.line("scn", ident, s, extra="nt=1 family=sibling-tags session=%s calltags=%s expect=%s" % (T(tm(sess)), ct, ",".join(exp)))
+
+
 def explore(ctx):
     rng, tier = ctx["rng"], ctx["tier"]
     if ctx.get("replay"):
@@ -169,6 +206,8 @@ def explore(ctx):
                         lines.append(stale_reply_new_call(rng, "r%d" % n, hook, nth, how)); n += 1
         for _ in range({"quick": 10, "thorough": 100, "search": 20}[tier]):
             lines.append(late_registration(rng, "g%d" % n)); n += 1
+        for _ in range({"quick": 12, "thorough": 150, "search": 30}[tier]):
+            lines.append(sibling_tags(rng, "t%d" % n)); n += 1
         for _ in range(2):
             lines.append(oversize_reply(rng, "o%d" % n)); n += 1
         for _ in range(6):
